@@ -15,11 +15,12 @@ package inmem
 //@ pred expiredAt(r kvs.Record, t time.Time) = r.ExpiresAt != nil && before(*r.ExpiresAt, t)
 //@ pred (s *service) wf() = s != nil && s.recs != nil && s.verChange != nil &&
 //@      forall(k, string, has(s.recs, k) ==> s.recs[k].Key == k && in(s.recs[k].Version, issued)) &&
-//@      forall(k, string, has(s.verChange, k) ==> s.verChange[k] != nil && s.verChange[k].done != nil && !closed(s.verChange[k].done)) &&
+//@      forall(k, string, has(s.verChange, k) ==> s.verChange[k] != nil && allocated(s.verChange[k]) && s.verChange[k].done != nil && allocated(s.verChange[k].done) && !closed(s.verChange[k].done) && s.verChange[k].waiters >= 1) &&
 //@      forall(k, string, forall(j, string, has(s.verChange, k) && has(s.verChange, j) && k != j ==> s.verChange[k].done != s.verChange[j].done))
 // key k was live (present, not expired) in the pre-state, judged at the final clock value
 // all state of the store is guarded by s.lock; between critical sections other goroutines may change it arbitrarily within wf()
-//@ monitor s service lock guards recs verChange waiter.waiters waiter.done invariant s.wf()
+// (waiter.done is written once, before the record is published under the lock: immutable afterwards)
+//@ monitor s service lock guards recs verChange waiter.waiters invariant s.wf() assuming forall(k, string, has(s.verChange, k) ==> s.verChange[k].waiters < 1<<40)
 
 //@ pred (s *service) wasLive(k string) = old(has(s.recs, k)) && !expiredAt(old(s.recs[k]), clock)
 // every key other than k is untouched
@@ -149,3 +150,19 @@ package inmem
 //@   modifies k.res
 //@   ensures old(len(k.res)) > 0 ==> r1 && r0 == old(k.res[0]) && len(k.res) == old(len(k.res)) - 1 && forall(i, 0, len(k.res), k.res[i] == old(k.res[i + 1]))
 //@   ensures old(len(k.res)) == 0 ==> !r1 && r0 == "" && len(k.res) == 0
+
+// ---- C07 (reduced scope): WaitForVersionChange ----
+// The function is a loop of critical sections; between them other goroutines change the store arbitrarily within wf()
+// (monitor rule).  Postconditions speak about the state at the END OF ITS LAST CRITICAL SECTION.
+//@ func (s *service) WaitForVersionChange(ctx context.Context, key string, ver string) error
+//@   props C07
+//@   requires s.wf() && ctx != nil
+//@   modifies everything
+// result soundness: nil only if the key exists (live) with another version; ErrNotExist only if it is absent; otherwise the context's error, and the context is done
+//@   ensures r0 == nil ==> has(s.recs, key) && s.recs[key].Version != ver && !expiredAt(s.recs[key], clock)
+//@   ensures r0 == errors.ErrNotExist && ctx.err != errors.ErrNotExist ==> !has(s.recs, key)
+//@   ensures r0 != nil && r0 != errors.ErrNotExist ==> r0 == ctx.err && ctx.err != nil
+// the bookkeeping is consistent again: every waiter record is registered under an existing... open, distinct channel with at least one waiter
+//@   ensures s.wf()
+//@   loop 1
+//@     invariant s != nil && ctx != nil
